@@ -28,6 +28,7 @@ type monCall struct {
 	chid       datatransfer.ChannelID
 	start, end time.Duration
 	failed     bool
+	seq        int // position in the double's call log (events remember the log length when they were fired)
 }
 
 // monAPI is the recording double of the monitor's view of the manager.
@@ -74,26 +75,32 @@ func (a *monAPI) ConnectTo(ctx context.Context, p peer.ID) error {
 	}
 	i := a.nconn[chid]
 	a.nconn[chid]++
-	call := &monCall{kind: "connect", chid: chid, start: a.now()}
+	call := &monCall{kind: "connect", chid: chid, start: a.now(), seq: len(a.calls)}
 	a.calls = append(a.calls, call)
 	st := a.stall[chid]
 	ff := a.connFail[chid]
 	a.mu.Unlock()
+	interrupted := false
 	if st > 0 {
 		select {
 		case <-time.After(st):
 		case <-ctx.Done():
+			interrupted = true // a real dial gives up with the context's error
 		}
 	}
 	fail := ff != nil && ff(i)
 	a.mu.Lock()
-	call.end, call.failed = a.now(), fail
+	call.end, call.failed = a.now(), fail || interrupted
 	a.mu.Unlock()
+	if interrupted {
+		return ctx.Err()
+	}
 	if fail {
 		return failureErr("connect failed", i)
 	}
 	return nil
 }
+
 // failureErr is what a failed reconnect / restart looks like to the monitor: a plain error, or - as the
 // network layer reports an unreachable peer - one that wraps the deadline of ITS OWN per-attempt timeout
 // (or a cancellation inside it). Neither says anything about the monitor's own context.
@@ -111,21 +118,26 @@ func (a *monAPI) RestartDataTransferChannel(ctx context.Context, chid datatransf
 	a.mu.Lock()
 	i := a.nrst[chid]
 	a.nrst[chid]++
-	call := &monCall{kind: "restart", chid: chid, start: a.now()}
+	call := &monCall{kind: "restart", chid: chid, start: a.now(), seq: len(a.calls)}
 	a.calls = append(a.calls, call)
 	st := a.stall[chid]
 	ff := a.rstFail[chid]
 	a.mu.Unlock()
+	interrupted := false
 	if st > 0 {
 		select {
 		case <-time.After(st):
 		case <-ctx.Done():
+			interrupted = true
 		}
 	}
 	fail := ff != nil && ff(i)
 	a.mu.Lock()
-	call.end, call.failed = a.now(), fail
+	call.end, call.failed = a.now(), fail || interrupted
 	a.mu.Unlock()
+	if interrupted {
+		return ctx.Err()
+	}
 	if fail {
 		return failureErr("restart failed", i)
 	}
@@ -133,12 +145,13 @@ func (a *monAPI) RestartDataTransferChannel(ctx context.Context, chid datatransf
 }
 func (a *monAPI) CloseDataTransferChannelWithError(ctx context.Context, chid datatransfer.ChannelID, cherr error) error {
 	a.mu.Lock()
-	a.calls = append(a.calls, &monCall{kind: "close", chid: chid, start: a.now(), end: a.now()})
+	a.calls = append(a.calls, &monCall{kind: "close", chid: chid, start: a.now(), end: a.now(), seq: len(a.calls)})
 	a.mu.Unlock()
 	return nil
 }
-func (a *monAPI) fire(code datatransfer.EventCode, st datatransfer.Status, chid datatransfer.ChannelID) {
+func (a *monAPI) fire(code datatransfer.EventCode, st datatransfer.Status, chid datatransfer.ChannelID) (callsBefore int) {
 	a.mu.Lock()
+	callsBefore = len(a.calls)
 	ids := make([]int, 0, len(a.subs))
 	for id := range a.subs {
 		ids = append(ids, id)
@@ -153,6 +166,7 @@ func (a *monAPI) fire(code datatransfer.EventCode, st datatransfer.Status, chid 
 	for _, sub := range subs {
 		sub(datatransfer.Event{Code: code, Timestamp: time.Now()}, s)
 	}
+	return callsBefore
 }
 func (a *monAPI) snapshot() ([]monCall, int) {
 	a.mu.Lock()
@@ -169,6 +183,8 @@ type monEv struct {
 	kind string // error data accept finish end noise
 	code datatransfer.EventCode
 	st   datatransfer.Status
+	// length of the double's call log when the event was handed to the subscribers
+	callsBefore int
 }
 
 func failPattern(k, n int) func(int) bool {
@@ -285,6 +301,23 @@ func TestC14Monitor(t *testing.T) {
 				}
 				continue
 			}
+			// in a third of the cases, for channels whose reconnect takes a while: the channel is accepted, one
+			// error starts a restart attempt, and the channel ends WHILE that attempt is in flight (the reconnect
+			// gives up with its context's error once the monitor has shut down). The failed attempt must not
+			// lead to a close of the channel that has just ended.
+			if st := api.stall[ch.chid]; st > 0 && c.Index%3 == 1 {
+				script = append(script, timed{ch, monEv{at: 5 * time.Millisecond, kind: "accept", code: datatransfer.Accept, st: datatransfer.Ongoing}})
+				t0 := time.Second + 3*time.Millisecond
+				script = append(script, timed{ch, monEv{at: t0, kind: "error", code: datatransfer.SendDataError, st: datatransfer.Ongoing}})
+				endSt := gen.Pick(r, []datatransfer.Status{datatransfer.Completed, datatransfer.Cancelled, datatransfer.Failed, datatransfer.Completing})
+				code := datatransfer.CleanupComplete
+				if isCleanup(endSt) {
+					code = datatransfer.Complete
+				}
+				script = append(script, timed{ch, monEv{at: t0 + cfg.RestartDebounce + st/2 + 6*time.Millisecond, kind: "end", code: code, st: endSt}})
+				c.Count("ended_during_restart_attempt", 1)
+				continue
+			}
 			n := 2 + r.Intn(14)
 			ended := false
 			for j := 0; j < n && !ended; j++ {
@@ -322,8 +355,9 @@ func TestC14Monitor(t *testing.T) {
 			if d := s.ev.at - api.now(); d > 0 {
 				time.Sleep(d)
 			}
-			s.ch.evs = append(s.ch.evs, monEv{at: api.now(), kind: s.ev.kind, code: s.ev.code, st: s.ev.st})
-			api.fire(s.ev.code, s.ev.st, s.ch.chid)
+			at := api.now()
+			nb := api.fire(s.ev.code, s.ev.st, s.ch.chid)
+			s.ch.evs = append(s.ch.evs, monEv{at: at, kind: s.ev.kind, code: s.ev.code, st: s.ev.st, callsBefore: nb})
 		}
 		time.Sleep(30 * time.Minute)
 		synctest.Wait()
@@ -375,12 +409,13 @@ func TestC14Monitor(t *testing.T) {
 			}
 			// timeline facts
 			var endAt, acceptAt time.Duration = -1, -1
+			endCalls := 0 // length of the call log when the ending event was handed to the monitor
 			var dataAt, finishAt, errorAt []time.Duration
 			for _, e := range ch.evs {
 				switch e.kind {
 				case "end":
 					if endAt < 0 {
-						endAt = e.at
+						endAt, endCalls = e.at, e.callsBefore
 					}
 				case "accept":
 					if acceptAt < 0 {
@@ -485,7 +520,9 @@ func TestC14Monitor(t *testing.T) {
 					if cl.start > stopAt && cl.kind != "close" {
 						c.Count("reconnect_or_restart_calls_after_stop", 1)
 					}
-					if cl.kind == "close" && endAt >= 0 && cl.start > endAt {
+					// (judged by the order of the log, not by the clock: a close that the ending itself provokes
+					// happens at the same virtual instant; nothing else is scheduled at an ending's instant)
+					if cl.kind == "close" && endAt >= 0 && cl.seq >= endCalls {
 						c.Violation("C14", "close-after-terminal", "channel %d closed at %v after it was seen %s at %v", ch.chid.ID, cl.start, "ending", endAt)
 					}
 				}
